@@ -335,12 +335,13 @@ func (fr *Frame) frameObligations(fc *FuncContract, pre *Env, entry, final *Stat
 			enc.oblige("frame", fc.File, "assigns clause: "+name+" unchanged", nil, pc, Eq(fin, init))
 			continue
 		}
-		q := Leaf(fmt.Sprintf("q_fr_%d", w.fresh()))
+		// skolemised: an arbitrary reference that existed at entry and is not listed keeps its value
+		q := enc.declare("fr_ref", "Int")
 		cond := []*Term{Le(IntLit(1), q), Lt(q, cnt0)}
 		for _, r := range allowed[name] {
 			cond = append(cond, Not(Eq(q, r)))
 		}
-		goal := A("forall", A("(("+q.Op+" Int))"), Implies(And(cond...), Eq(Select(fin, q), Select(init, q))))
+		goal := Implies(And(cond...), Eq(Select(fin, q), Select(init, q)))
 		enc.oblige("frame", fc.File, "assigns clause: "+name+" changes only where declared", nil, pc, goal)
 	}
 }
